@@ -372,3 +372,87 @@ Theorem existing_file_same_salt f raw fs fs2 rnd rnd' :
   assoc f fs = Some (FFile raw) -> fs_le fs fs2 ->
   salt_of (SrcFile f) fs rnd = InitOk (read_text raw) fs /\ salt_of (SrcFile f) fs2 rnd' = InitOk (read_text raw) fs2.
 Proof. intros A L. cbn [salt_of]. now rewrite (L _ _ A), A. Qed.
+
+(* ==== THE REQUEST IS NO INPUT OF THE SUB ====
+   grant_sub_rq / grant_sub_conf_rq take the assembled authorization request (redirect_uri + every other member, extension
+   parameters included) as an explicit argument.  No member of the request enters the sub: it is the registration's sub - with
+   the sector host the registration yields (a registered sector_id / sector_identifier_uri, or - for a client that registered
+   none - the redirect_uri, which the endpoint has matched against the registered ones), the EMPTY sector when it yields none. *)
+Lemma sector_source_registered r rd rd' : has_sector r = true -> sector_source r rd = sector_source r rd'.
+Proof.
+  unfold has_sector, sector_source. destruct (truthy (r_sector_id r)); [reflexivity|].
+  destruct (truthy (r_sector_uri r)); [reflexivity|discriminate].
+Qed.
+
+Section SubRqProofs.
+  Variable H : pystr -> pystr.
+  Variable host_of : pystr -> pystr.
+
+  (* the sub a request gets is the sub of the registration *)
+  Theorem request_sub_is_registration_sub r rq uid salt n :
+    grant_sub_rq H host_of r rq uid salt n = grant_sub H host_of r (rq_redirect rq) uid salt n.
+  Proof. reflexivity. Qed.
+  Theorem request_sub_conf_is_registration_sub conf r rq uid salt n :
+    grant_sub_conf_rq H host_of conf r rq uid salt n = grant_sub_conf H host_of conf r (rq_redirect rq) uid salt n.
+  Proof. reflexivity. Qed.
+  Corollary plain_request_sub conf r rd uid salt n :
+    grant_sub_conf_rq H host_of conf r (plain_request rd) uid salt n = grant_sub_conf H host_of conf r rd uid salt n.
+  Proof. reflexivity. Qed.
+
+  (* IRRELEVANCE, whatever is configured: two requests whose redirect_uris lead to the same sector host *)
+  Theorem request_irrelevant_same_host conf r rq rq' uid salt n :
+    host_of (sector_source r (rq_redirect rq)) = host_of (sector_source r (rq_redirect rq')) ->
+    grant_sub_conf_rq H host_of conf r rq uid salt n = grant_sub_conf_rq H host_of conf r rq' uid salt n.
+  Proof. intros E. unfold grant_sub_conf_rq, grant_sector, subject_sector. now rewrite E. Qed.
+  (* ... in particular every content of the other members *)
+  Corollary request_members_irrelevant conf r rd ms ms' uid salt n :
+    grant_sub_conf_rq H host_of conf r (mkAreq rd ms) uid salt n = grant_sub_conf_rq H host_of conf r (mkAreq rd ms') uid salt n.
+  Proof. now apply request_irrelevant_same_host. Qed.
+  (* ... and for a client that registered a sector of its own (with or without a host), every request at all *)
+  Theorem request_irrelevant_registered_sector conf r uid salt n :
+    has_sector r = true ->
+    forall rq rq', grant_sub_conf_rq H host_of conf r rq uid salt n = grant_sub_conf_rq H host_of conf r rq' uid salt n.
+  Proof.
+    intros S rq rq'. apply request_irrelevant_same_host.
+    now rewrite (sector_source_registered r _ (rq_redirect rq') S).
+  Qed.
+  (* the built-in minters are the configuration that names nothing *)
+  Lemma nothing_configured_rq r rq uid salt n :
+    grant_sub_conf_rq H host_of [] r rq uid salt n = grant_sub_rq H host_of r rq uid salt n.
+  Proof.
+    unfold grant_sub_conf_rq, grant_sub_rq, table_sub. rewrite table_lookup. cbn [configured]. apply default_is_sub_of.
+  Qed.
+  Theorem request_irrelevant_builtin r uid salt n :
+    has_sector r = true ->
+    forall rq rq', grant_sub_rq H host_of r rq uid salt n = grant_sub_rq H host_of r rq' uid salt n.
+  Proof.
+    intros S rq rq'. rewrite <- !nothing_configured_rq. now apply request_irrelevant_registered_sector.
+  Qed.
+
+  (* minters that do not look at the sector (public; a fresh value): also across redirect hosts *)
+  Theorem request_irrelevant_public r uid salt n : subtype_of r = Public ->
+    forall rq rq', grant_sub_rq H host_of r rq uid salt n = grant_sub_rq H host_of r rq' uid salt n.
+  Proof. intros T rq rq'. unfold grant_sub_rq. rewrite T. reflexivity. Qed.
+  Theorem request_irrelevant_ephemeral r uid salt n : subtype_of r = Ephemeral ->
+    forall rq rq', grant_sub_rq H host_of r rq uid salt n = grant_sub_rq H host_of r rq' uid salt n.
+  Proof. intros T rq rq'. unfold grant_sub_rq. rewrite T. reflexivity. Qed.
+  Theorem request_irrelevant_sector_blind conf r uid salt n m :
+    assoc (type_key_of r) (minter_table conf) = Some m ->
+    (match m with MHash _ us _ => us = false | MFresh => True end) ->
+    forall rq rq', grant_sub_conf_rq H host_of conf r rq uid salt n = grant_sub_conf_rq H host_of conf r rq' uid salt n.
+  Proof.
+    intros A B rq rq'. unfold grant_sub_conf_rq, table_sub. rewrite A. destruct m as [p us own|]; [|reflexivity].
+    subst us. reflexivity.
+  Qed.
+
+  (* NO REQUEST MOVES A CLIENT INTO ANOTHER SECTOR: pairwise subs of two requests - whatever they carry - agree exactly when the
+     sector hosts of the two REGISTRATIONS agree *)
+  Hypothesis H_inj : forall a b, H a = H b -> a = b.
+  Theorem request_pairwise_iff_registered_sector r1 r2 rq1 rq2 uid salt n1 n2 :
+    subtype_of r1 = Pairwise -> subtype_of r2 = Pairwise ->
+    (grant_sub_rq H host_of r1 rq1 uid salt n1 = grant_sub_rq H host_of r2 rq2 uid salt n2
+     <-> subject_sector host_of r1 rq1 = subject_sector host_of r2 rq2).
+  Proof.
+    intros T1 T2. rewrite !request_sub_is_registration_sub. now apply pairwise_iff_sector.
+  Qed.
+End SubRqProofs.
